@@ -189,7 +189,7 @@ class Ctx:
         return red
 
     # ---- C
-    def to_c(self, ll, name, overrides=(), stubs=('cxxrt.c', 'vp_cbmc.c')):
+    def to_c(self, ll, name, overrides=(), stubs=('cxxrt.c', 'vp_cbmc.c'), traps=()):
         d = os.path.dirname(ll)
         out = os.path.join(d, name + '.c')
         info = os.path.join(d, name + '.info.json')
@@ -204,6 +204,8 @@ class Ctx:
                     cands.append('%s:%s:%s' % (m.group(1), m.group(2), m.group(3).replace(' ', '')))
         for cnd in cands:
             cmd += ['--candidate', cnd]
+        for t in traps:
+            cmd += ['--trap', t]
         rc, o, e, _, _ = sh(cmd, timeout=600)
         if rc != 0:
             raise Inconclusive('ll2c: ' + e[-1500:])
@@ -220,8 +222,10 @@ class Ctx:
                '--drop-unused-functions', '--slice-formula', '--json-ui']
         if trace:
             cmd.append('--trace')
-        if unwindset:
-            cmd += ['--unwindset', ','.join('%s:%d' % kv for kv in unwindset.items())]
+        us = {'vp_memset.0': 130, 'vp_memcpy.0': 130, 'vp_memmove.0': 130, 'vp_memmove.1': 130, 'vp_dup.0': 66,
+              'vp_strlen.0': 66, 'vp_libc_memcmp.0': 66, 'vp_libc_memchr.0': 66}
+        us.update(unwindset or {})
+        cmd += ['--unwindset', ','.join('%s:%d' % kv for kv in us.items())]
         if object_bits:
             cmd += ['--object-bits', str(object_bits)]
         if backend == 'cadical':
@@ -397,7 +401,8 @@ class Module:
     """one lowered module: repo TUs + harness TU -> C; several entries are checked on it"""
     def __init__(self, ctx, name, tus, harness, entries, stubs=('cxxrt.c', 'vp_cbmc.c', 'ostream_null.c'),
                  overrides=(), defs=(), native_tus=None, native_libs=('-ldl',), support=('@h/support_std.cc',),
-                 native_extra=(), keep=()):
+                 native_extra=(), keep=(), traps=()):
+        self.traps = tuple(traps)
         self.ctx = ctx
         self.name = name
         self.tus = list(tus)
@@ -437,7 +442,7 @@ class Module:
         ctx = self.ctx
         ll = ctx.build_ir(self.name, self.tus + ['@h/' + self.harness] + list(self.support), self.entries,
                           defs=tuple(self.defs) + tuple(self.kf_defs), keep=self.keep)
-        self.cfile, self.info = ctx.to_c(ll, self.name, overrides=self.overrides, stubs=self.stubs)
+        self.cfile, self.info = ctx.to_c(ll, self.name, overrides=self.overrides, stubs=self.stubs, traps=self.traps)
         enc = [f for f in self.info['functions']]
         dm = demangle(enc)
         for f in dm:
